@@ -920,7 +920,11 @@ def run(ctx):
         if ok:
             fails = list(sp["placed"]) if literal else []
             finding = None
-            if "tmpclash" in guards:
+            rels = r.get("rels") or {}
+            resolved_clash = any(a != b and rb[: len(ra)] == ra[:-1] + (ra[-1] + "#new",)
+                                 for a, ra in rels.items() if ra for b, rb in rels.items())
+            if "tmpclash" in guards or resolved_clash:
+                # (also when the clash only arises after the kernel has resolved a symlinked directory)
                 finding = "C18-tmp-name-clash"
             elif "symoverdir" in guards:
                 finding = "C18-symlink-over-directory"
